@@ -27,19 +27,8 @@ def check(ctx: Ctx):
     io.check_file_modes(ctx)
     io.check_sequence_keys(ctx, f"{EM}.EmulsionTimeCourse.to_file", f"{EM}.EmulsionTimeCourse.from_file", "_write_hdf_dataset", "EmulsionTimeCourse")
     io.check_sequence_keys(ctx, f"{TR}.DropletTrackList.to_file", f"{TR}.DropletTrackList.from_file", "_write_hdf_dataset", "DropletTrackList")
-    # time attribute of time-course frames
+    io.check_timecourse_time(ctx)
     m = ctx.model
-    from ..astutil import view, U, kwarg
-
-    w, r = m.func(f"{EM}.EmulsionTimeCourse.to_file"), m.func(f"{EM}.EmulsionTimeCourse.from_file")
-    wr, rd = io.attrs_written(view(m, w)), io.attrs_read(view(m, r))
-    ok = "time" in wr and "time" in rd and U(wr["time"][0].value) == "time"
-    ctx.decide(ok, "IOAGREE", "EmulsionTimeCourse:attrs[time]", (w, wr["time"][0]) if "time" in wr else w, "every frame's time is stored next to its dataset and read from there",
-               "the frame time is not written to / read from dataset.attrs['time']")
-    rv = view(m, r)
-    ap = [c for c in rv.calls() if isinstance(c.func, ast.Attribute) and c.func.attr == "append" and kwarg(c, "time") is not None]
-    oka = len(ap) == 1 and U(rv.expand(kwarg(ap[0], "time"), ap[0], stop=("dataset",))) == "dataset.attrs['time']" and U(rv.expand(ap[0].args[0], ap[0], stop=("dataset",))) == "Emulsion._from_hdf_dataset(dataset)"
-    ctx.decide(oka, "IOAGREE", "EmulsionTimeCourse:reader", (r, ap[0]) if ap else r, "each frame is appended with its stored time", "frames are not appended as (Emulsion._from_hdf_dataset(dataset), time=dataset.attrs['time'])")
     io.check_time_column(ctx)
     # readers rebuild collections through append(..., time=stored): 0.0 is a valid stored time, NaN a valid stored width,
     # and the default copy of a stored frame keeps every member
